@@ -409,8 +409,15 @@ def parse_rvalue(s):
             # could be a cast: "move _5 as T (Kind)"
             k = _find_top(s, " as ")
             if k >= 0 and s.endswith(")"):
-                # cast
-                j = s.rfind("(")
+                # cast: "<operand> as <type> (<Kind>)" -- find the '(' matching the final ')'
+                depth = 0
+                for j in range(len(s) - 1, -1, -1):
+                    if s[j] == ")":
+                        depth += 1
+                    elif s[j] == "(":
+                        depth -= 1
+                        if depth == 0:
+                            break
                 kind = s[j + 1:-1]
                 ty = s[k + 4:j].strip()
                 return ("cast", parse_operand(s[:k]), ty, kind)
